@@ -190,3 +190,213 @@ Example C16_isolation_reachable :
   = Some {| pcols := [[Fin 5; Fin 5]; [Fin 140; NaN]; [Fin 16; Fin 30]; [Fin 20; Fin 30]; [Fin 3; Fin 3]];
             cost := [Fin 0; NaN] |}.
 Proof. vm_compute. reflexivity. Qed.
+
+(* =====================================================================================
+   Deepening round.  (A) Route T for the bounds assembly: Gen/bounds.v is regenerated on
+   every check run from the CURRENT source of FitFunctions.validate_bounds,
+   FitFunctions.compute_bounds and the statements of refine_leastsq that wire them to
+   scipy (tools/py2coq_bounds.py, vocabulary Model/PyBounds.v); Proofs/BoundsGen.v proves
+   the generated functions equal to the hand model for all inputs, so sections 1-5 above
+   are theorems about the translated code.  (B) Model/RefineDriver2.v follows the control
+   flow of the recentring loop statement by statement, with oracles indexed by unit and
+   iteration; Proofs/RefineDriver2.v.
+   Hand-written and trusted on the generated side: the translator and the vocabulary
+   (dictionary look-up, `is np.nan`, membership in pos/size columns, IEEE special values
+   of - / + *, nanmax/fmax = NaN-ignoring max, broadcasting, vect_from_params = pack).
+   ===================================================================================== *)
+From Coq Require Import ZArith String.
+From TP Require Import Model.PyBounds Gen.bounds Proofs.BoundsGen Model.RefineDriver2 Proofs.RefineDriver2.
+
+(* ---- 6. generated = hand model, for all inputs ----------------------------------------
+   what minimize receives as bounds= for a unit with start values params (computed once,
+   before the recentring loop, from diameter // 2) is the model's box *)
+Theorem C16_gen_f_bounds_is_model : forall ps modes d diameter params g,
+  Gen.bounds.refine_leastsq_f_bounds ps modes (Some d) diameter params g =
+  (box_low (RefineBounds.validate_bounds d (radiusQ (Gen.bounds.refine_leastsq_radius diameter)) ps) modes g params,
+   box_high (RefineBounds.validate_bounds d (radiusQ (Gen.bounds.refine_leastsq_radius diameter)) ps) modes g params).
+Proof. exact gen_f_bounds_eq. Qed.
+Print Assumptions C16_gen_f_bounds_is_model.
+
+(* bounds=None behaves as bounds={} *)
+Theorem C16_gen_f_bounds_none : forall ps modes diameter params g,
+  Gen.bounds.refine_leastsq_f_bounds ps modes None diameter params g =
+  Gen.bounds.refine_leastsq_f_bounds ps modes (Some []) diameter params g.
+Proof. exact gen_f_bounds_none. Qed.
+Print Assumptions C16_gen_f_bounds_none.
+
+(* the three (2, P) arrays of the generated validate_bounds are the model's per-parameter records *)
+Theorem C16_gen_validate_is_model : forall ps d radius,
+  Gen.bounds.validate_bounds ps (Some d) radius =
+  (map b_abs (RefineBounds.validate_bounds d (radiusQ radius) ps),
+   map b_diff (RefineBounds.validate_bounds d (radiusQ radius) ps),
+   map b_rel (RefineBounds.validate_bounds d (radiusQ radius) ps)).
+Proof. exact gen_validate_eq. Qed.
+Print Assumptions C16_gen_validate_is_model.
+
+(* one entry of the generated compute_bounds is the model's bound_low / bound_high *)
+Theorem C16_gen_entry_is_model : forall a d r p,
+  Gen.bounds.compute_bounds_bound_low a d r p = bound_low p (fst a) (fst d) (fst r) /\
+  Gen.bounds.compute_bounds_bound_high a d r p = bound_high p (snd a) (snd d) (snd r).
+Proof. exact (fun a d r p => conj (gen_bound_low_eq a d r p) (gen_bound_high_eq a d r p)). Qed.
+Print Assumptions C16_gen_entry_is_model.
+
+(* ---- 7. the bounds theorems of section 1, about the generated functions ------------------
+   a, d, r = column j of the arrays (abs, diff, reldiff); start = params[i, j] *)
+Theorem C16_gen_bounds_algebra : forall start a d r v,
+  (sat_low (Gen.bounds.compute_bounds_bound_low a d r start) v <->
+     sat_low (esub start (fst d)) v /\ sat_low (ediv start (fst r)) v /\ sat_low (fst a) v) /\
+  (sat_high (Gen.bounds.compute_bounds_bound_high a d r start) v <->
+     sat_high (eadd start (snd d)) v /\ sat_high (emul start (snd r)) v /\ sat_high (snd a) v) /\
+  Gen.bounds.compute_bounds_bound_low (NaN, NaN) (NaN, NaN) (NaN, NaN) start = NInf /\
+  Gen.bounds.compute_bounds_bound_high (NaN, NaN) (NaN, NaN) (NaN, NaN) start = PInf.
+Proof. exact gen_bounds_algebra. Qed.
+Print Assumptions C16_gen_bounds_algebra.
+
+(* unless '<pos>_abs' / 'pos_abs' is given, a position stays within radius[k] of its start *)
+Theorem C16_gen_default_position_within_radius : forall d radius k start v,
+  dict_get d (key_param (PPos k) "_abs") = None -> dict_get d (key_lit "pos_abs") = None ->
+  let '(a, df, r) := Gen.bounds.validate_bounds_loop d radius (PPos k) in
+  sat_low (Gen.bounds.compute_bounds_bound_low a df r start) v ->
+  sat_high (Gen.bounds.compute_bounds_bound_high a df r start) v ->
+  start - inject_Z (nth k radius 0%Z) <= v /\ v <= start + inject_Z (nth k radius 0%Z).
+Proof. exact gen_default_position_within_radius. Qed.
+Print Assumptions C16_gen_default_position_within_radius.
+
+(* unless an absolute bound is given (own key, or 'size' for a size column), background /
+   signal / size stay >= 1e-7 > 0 *)
+Theorem C16_gen_default_positive : forall d radius pk start v,
+  positive_kind pk ->
+  dict_get d (key_param pk "") = None ->
+  (in_size_columns pk = true -> dict_get d (key_lit "size") = None) ->
+  let '(a, df, r) := Gen.bounds.validate_bounds_loop d radius pk in
+  sat_low (Gen.bounds.compute_bounds_bound_low a df r start) v ->
+  eps <= v /\ 0 < v.
+Proof. exact gen_default_positive. Qed.
+Print Assumptions C16_gen_default_positive.
+
+(* ---- 8. the recentring loop, exactly ------------------------------------------------------
+   Model/RefineDriver2.v: in_image u n / opt u n are the behaviour of prepare_subimages /
+   minimize in iteration n of unit u, with NO assumption (they may answer differently in
+   every iteration).  With oracles that ignore u and n it is the model of sections 2-4. *)
+Theorem C16_driver2_refines : forall in_image opt ps modes ndim bd radius max_iter max_shift max_rms_dev us t,
+  run2 (fun _ _ => in_image) (fun _ _ => opt) ps modes ndim bd radius max_iter max_shift max_rms_dev t us =
+  run in_image opt ps modes ndim bd radius max_iter max_shift max_rms_dev t us.
+Proof. exact run2_refines. Qed.
+Print Assumptions C16_driver2_refines.
+
+(* the functional loop IS the Python control flow.  passed u n .. s s' brk: iteration n of
+   unit u found the unit in the image, a non-empty box, a successful optimiser result
+   (x, r), set params := vect_to_params(x, params), rms_dev := r, and the shift test came
+   out as brk (true: break, coords unchanged; false: coords := new_coords).  steps n s m s':
+   iterations n .. m-1 all passed with brk = false.
+   The for statement, started at iteration n with fuel iterations left, ends
+     by break in iteration m        iff  m < n + fuel, iterations n..m-1 passed without
+                                         break and iteration m passed with break;
+     by exhaustion, without a break iff  all iterations n..n+fuel-1 passed without break
+                                         (the state is that of the last iteration). *)
+Theorem C16_loop_break_iff : forall in_image opt modes ndim max_shift fuel u n g lo hi vect s s' m,
+  for_loop in_image opt modes ndim max_shift u n fuel g lo hi vect s = L2End s' true (S m) <->
+  (m < n + fuel)%nat /\
+  exists s1, steps in_image opt modes ndim max_shift u g lo hi vect n s m s1 /\
+             passed in_image opt modes ndim max_shift u m g lo hi vect s1 s' true.
+Proof. exact for_loop_break_iff. Qed.
+Print Assumptions C16_loop_break_iff.
+
+Theorem C16_loop_exhaust_iff : forall in_image opt modes ndim max_shift fuel u n g lo hi vect s s' m,
+  for_loop in_image opt modes ndim max_shift u n fuel g lo hi vect s = L2End s' false m <->
+  m = (n + fuel)%nat /\ steps in_image opt modes ndim max_shift u g lo hi vect n s m s'.
+Proof. exact for_loop_exhaust_iff. Qed.
+Print Assumptions C16_loop_exhaust_iff.
+
+(* a unit reported as success went through between 1 and max_iter iterations, ended by
+   break or -- only after exactly max_iter iterations -- by exhaustion, holds the
+   parameters of its last iteration, and its cost r is that iteration's rms deviation with
+   r <= max_rms_dev: the test after the loop applies to both endings *)
+Theorem C16_unit_fitted_inv :
+  forall in_image opt ps modes ndim bd radius max_iter max_shift max_rms_dev u g params_e p r,
+  fit2 in_image opt ps modes ndim bd radius max_iter max_shift max_rms_dev u g params_e = Fitted p r ->
+  exists params0 s b m,
+    all_fin2 params_e = Some params0 /\
+    run_loop in_image opt ps modes ndim bd radius max_iter max_shift u g params0 = L2End s b m /\
+    (1 <= m <= max_iter)%nat /\ (b = false -> m = max_iter) /\
+    l_params s = p /\ l_rms s = Some r /\ r <= max_rms_dev.
+Proof. exact fit2_fitted_inv. Qed.
+Print Assumptions C16_unit_fitted_inv.
+
+(* ---- 9. full strength: any unit sequence, any oracle outcomes per unit and iteration --------
+   Hypotheses: the units are pairwise disjoint row sets (groupby), max_iter > 0, and the
+   bounds dictionary is feasible for every unit with finite start values (a non-empty box:
+   otherwise scipy rejects the ARGUMENT with ValueError, section 4).  NO hypothesis on
+   in_image / opt.  Then
+     - the call returns a table t (no failed fit -- non-finite start, out of image in any
+       iteration, optimiser failure in any iteration, rms_dev > max_rms_dev after a break or
+       after max_iter iterations -- makes it raise);
+     - rows belonging to no unit are untouched;
+     - every unit u either kept every input value and has cost NaN on all its rows
+       (kept_with_nan_cost = unit_result t0 t u Failed, spelled out in section 2), or
+       holds a parameter array p with cost r (holds_fit) where r <= max_rms_dev and, if
+       successful SLSQP results lie in the box they were given (opt_in_box2), every entry of
+       p is within all requested and default bounds of its start value (entries_within: the
+       per-entry statement of section 3). *)
+Theorem C16_driver_full :
+  forall in_image opt ps modes ndim bd radius max_iter max_shift max_rms_dev us t0,
+  disjoint_units us -> (0 < max_iter)%nat ->
+  (forall u, In u us -> feasible ps modes bd radius t0 u) ->
+  exists t, run2 in_image opt ps modes ndim bd radius max_iter max_shift max_rms_dev t0 us = Some t /\
+    (forall i, (forall u, In u us -> ~ In i (fst u)) -> same_row t0 t i) /\
+    forall u, In u us ->
+      kept_with_nan_cost t0 t u \/
+      exists p r, holds_fit t0 t u p r /\ r <= max_rms_dev /\
+        (opt_in_box2 opt -> forall params0,
+           all_fin2 (rows_of t0 u) = Some params0 ->
+           List.length modes = List.length params0 -> List.length ps = List.length params0 ->
+           entries_within ps modes bd radius (snd u) params0 p).
+Proof. exact driver_full. Qed.
+Print Assumptions C16_driver_full.
+
+(* the per-unit half, usable without the table: no exception escapes the try block *)
+Theorem C16_unit_no_raise :
+  forall in_image opt ps modes ndim bd radius max_iter max_shift max_rms_dev u g params_e,
+  (0 < max_iter)%nat ->
+  (forall params0, all_fin2 params_e = Some params0 ->
+     box_empty (box_low (RefineBounds.validate_bounds bd radius ps) modes g params0)
+               (box_high (RefineBounds.validate_bounds bd radius ps) modes g params0) = false) ->
+  fit2 in_image opt ps modes ndim bd radius max_iter max_shift max_rms_dev u g params_e <> Raised.
+Proof. exact fit2_no_raise. Qed.
+Print Assumptions C16_unit_no_raise.
+
+(* ---- non-vacuity of the deepening round ------------------------------------------------------ *)
+(* an optimiser that moves y by one pixel in every iteration and reports rms 1/2: with
+   max_shift = 1 the accept test never fires; max_iter = 2 is exhausted WITHOUT a break *)
+Definition walk_opt (_ n : nat) (_ _ : list ext) (_ : list Q) (_ _ : list (list Q)) : ores :=
+  OSucc [5; 150; 16 + inject_Z (Z.of_nat (S n)); 20] (1 # 2).
+
+Example C16_exhaustion_reachable :
+  run_loop (fun _ _ _ => true) walk_opt ps2 modes2 2 [] [6; 6] 2 1 0%nat None [[5]; [150]; [16]; [20]; [3]]
+  = L2End {| l_params := [[5]; [150]; [18]; [20]; [3]]; l_coords := [[18]; [20]]; l_rms := Some (1 # 2) |} false 2.
+Proof. vm_compute. reflexivity. Qed.
+
+(* ... accepted when max_rms_dev = 1, a failed fit (values kept, cost NaN) when max_rms_dev = 1/4 *)
+Example C16_exhaustion_then_rms_test :
+  fit2 (fun _ _ _ => true) walk_opt ps2 modes2 2 [] [6; 6] 2 1 1 0%nat None start1 = Fitted [[5]; [150]; [18]; [20]; [3]] (1 # 2) /\
+  fit2 (fun _ _ _ => true) walk_opt ps2 modes2 2 [] [6; 6] 2 1 (1 # 4) 0%nat None start1 = Failed.
+Proof. split; vm_compute; reflexivity. Qed.
+
+(* an oracle that answers differently per iteration: in the image at first, out of it in
+   iteration 1 -> failed fit, not an exception *)
+Example C16_out_of_image_in_a_later_iteration :
+  fit2 (fun _ n _ => Nat.eqb n 0) walk_opt ps2 modes2 2 [] [6; 6] 5 1 1 0%nat None start1 = Failed.
+Proof. vm_compute. reflexivity. Qed.
+
+(* the indexed contract is met by an actual optimiser *)
+Example C16_contract2_satisfiable : opt_in_box2 (fun _ _ => clip_opt).
+Proof. exact clip_opt2_in_box. Qed.
+
+(* the generated code on a concrete dictionary: {'signal': (100, 140), 'pos_abs': 0.25},
+   diameter 13 -> radius 6, one feature *)
+Example C16_gen_box_instance :
+  Gen.bounds.refine_leastsq_f_bounds ps2 modes2
+    (Some [(KParam PSignal FAbs, Pair (Fin 100) (Fin 140)); (KPos FDiff, Scalar (Fin (1#4)))]) [13%Z; 13%Z]
+    [[5]; [150]; [16]; [20]; [3]] None
+  = ([Fin eps; Fin 100; Fin (63 # 4); Fin (79 # 4)], [PInf; Fin 140; Fin (65 # 4); Fin (81 # 4)]).
+Proof. vm_compute. reflexivity. Qed.
